@@ -17,6 +17,23 @@ pub struct Case {
     pub len: usize,
     pub seed: u64,
     pub scalar: bool,
+    /// reset() schedule: 0 none; 1 every 50 inputs; 2 every 390 inputs; 3 once, after 2n+5 inputs (window full);
+    /// 4 every n+1 inputs; 5 once after n-1 inputs (during warm-up) and again every 7n+3
+    #[serde(default)]
+    pub resets: u8,
+}
+
+fn reset_due(mode: u8, i: usize, n: usize) -> bool {
+    let n = n.max(1);
+    i > 0
+        && match mode {
+            1 => i % 50 == 0,
+            2 => i % 390 == 0,
+            3 => i == 2 * n + 5,
+            4 => i % (n + 1) == 0,
+            5 => i + 1 == n || i % (7 * n + 3) == 0,
+            _ => false,
+        }
 }
 
 fn gen_inputs(c: &Case) -> Vec<RawBar> {
@@ -77,6 +94,9 @@ pub fn check(c: &Case, ctx: &mut Ctx) -> Result<(), Failure> {
     let mut sizes_seen = 0u64;
     let mut max_size = 0u64;
     for (i, b) in inputs.iter().enumerate() {
+        if reset_due(c.resets, i, n) {
+            ind.reset();
+        }
         if scalar {
             ind.next_scalar(b.c);
         } else {
@@ -119,6 +139,9 @@ pub fn check(c: &Case, ctx: &mut Ctx) -> Result<(), Failure> {
     let allocs0 = alloc::allocs();
     let mut peak = 0isize;
     for (i, b) in inputs[warm..].iter().enumerate() {
+        if reset_due(c.resets, warm + i, n) {
+            ind.reset();
+        }
         if scalar {
             ind.next_scalar(b.c);
         } else {
@@ -150,6 +173,10 @@ pub fn check(c: &Case, ctx: &mut Ctx) -> Result<(), Failure> {
         fp.u(c.len as u64);
         fp.u(c.seed);
         fp.u(scalar as u64);
+        fp.u(c.resets as u64);
+        if c.resets > 0 {
+            ctx.label("with_resets");
+        }
         ctx.nontrivial(fp);
         ctx.label("nontrivial");
         if c.shape < 2 {
@@ -162,18 +189,18 @@ pub fn check(c: &Case, ctx: &mut Ctx) -> Result<(), Failure> {
 const PERIODS: [usize; 8] = [1, 2, 3, 5, 14, 64, 200, 512];
 
 fn strategy(maxlen: usize) -> BoxedStrategy<Case> {
-    (any_kind().prop_flat_map(|k| cfg_for(k, 512, multiplier_any())), prop_oneof![2 => Just(0usize), 2 => Just(1usize), 1 => Just(2usize), 1 => Just(3usize), 1 => Just(4usize), 1 => Just(5usize), 1 => Just(6usize), 1 => Just(7usize), 1 => Just(8usize), 1 => Just(9usize), 1 => Just(10usize), 1 => Just(11usize)], (maxlen / 10)..=maxlen, any::<u64>(), any::<bool>())
-        .prop_map(|(cfg, shape, len, seed, scalar)| {
+    (any_kind().prop_flat_map(|k| cfg_for(k, 512, multiplier_any())), prop_oneof![2 => Just(0usize), 2 => Just(1usize), 1 => Just(2usize), 1 => Just(3usize), 1 => Just(4usize), 1 => Just(5usize), 1 => Just(6usize), 1 => Just(7usize), 1 => Just(8usize), 1 => Just(9usize), 1 => Just(10usize), 1 => Just(11usize)], (maxlen / 10)..=maxlen, any::<u64>(), any::<bool>(), prop_oneof![3 => Just(0u8), 1 => 1u8..6])
+        .prop_map(|(cfg, shape, len, seed, scalar, resets)| {
             let n = cfg.p.iter().copied().max().unwrap_or(1);
             let heavy = matches!(cfg.kind, Kind::Mad | Kind::Cci | Kind::Er) && n > 32;
             let len = if heavy { (len / (n / 16)).max(20 * n) } else { len.max(20 * n) };
-            Case { cfg, shape, len, seed, scalar }
+            Case { cfg, shape, len, seed, scalar, resets }
         })
         .boxed()
 }
 
 pub fn run(g: &mut Global) {
-    g.rule = "grid: all 22 indicators x periods {1,2,3,5,14,64,200,512} x 12 stream shapes (zero-volume moving quotes, an enormous tick every `period` inputs, monotone up, monotone down, alternating, flat, random, rising and falling staircases with exact ties, repeated touches of an exact floor / ceiling, tick-grid walk) x scalar/bar path, streams of 1e4 (quick) / 2e5 (thorough) inputs; random: proptest (kind, periods from the mixture to 512, shape, length, seed). Oracle: (i) bincode::serialized_size <= 256 + 64*(sum of periods) at every one of the first 4n+50 inputs and at geometrically spaced checkpoints afterwards; (ii) counting #[global_allocator] with per-thread live-byte counters: after a warm-up of 2n+10 inputs, the net growth (and the sampled peak) of live heap bytes while feeding the rest stays <= the same bound; the number of allocation calls during that phase is reported. Non-trivial = stream at least 20 periods long; sub-class monotone shapes (worst case for a retained history / monotonic deque); distinct by (kind, parameters, shape, length, seed, path).".into();
+    g.rule = "grid: all 22 indicators x periods {1,2,3,5,14,64,200,512} x 12 stream shapes (zero-volume moving quotes, an enormous tick every `period` inputs, monotone up, monotone down, alternating, flat, random, rising and falling staircases with exact ties, repeated touches of an exact floor / ceiling, tick-grid walk) x scalar/bar path, streams of 1e5 (quick) / 1e6 (thorough) inputs; with_resets: periods {1,9,20,60} x five reset schedules (every 50 / 390 / n+1 inputs, once after the window filled, during warm-up and every 7n+3) x 3 shapes; random: proptest (kind, periods from the mixture to 512, shape, length, seed). Oracle: (i) bincode::serialized_size <= 256 + 64*(sum of periods) at every one of the first 4n+50 inputs and at geometrically spaced checkpoints afterwards; (ii) counting #[global_allocator] with per-thread live-byte counters: after a warm-up of 2n+10 inputs, the net growth (and the sampled peak) of live heap bytes while feeding the rest stays <= the same bound; the number of allocation calls during that phase is reported. Non-trivial = stream at least 20 periods long; sub-class monotone shapes (worst case for a retained history / monotonic deque); distinct by (kind, parameters, shape, length, seed, path).".into();
     g.assumptions = vec![
         "inputs are pre-generated before the measured phase; the feeding loop itself allocates nothing".into(),
         "heap is measured on the thread that feeds the indicator; ta spawns no threads".into(),
@@ -194,7 +221,26 @@ pub fn run(g: &mut Global) {
             let heavy = matches!(kind, Kind::Mad | Kind::Cci | Kind::Er) && n > 32;
             let l = if heavy { (len / (n / 16)).max(20 * n) } else { len.max(20 * n) };
             let mut s = seed ^ i.wrapping_mul(0x2545F4914F6CDD1D);
-            Case { cfg: cfg_small(kind, n), shape, len: l, seed: splitmix(&mut s), scalar }
+            Case { cfg: cfg_small(kind, n), shape, len: l, seed: splitmix(&mut s), scalar, resets: 0 }
+        },
+        &check,
+    );
+    // the same bound with reset() in the history: sessions of 50 / 390 / n+1 inputs, one reset right after the
+    // window filled, one during warm-up (state that reset() merely marks as expired must still be released)
+    let rlen = g.tier.pick(40_000usize, 400_000usize);
+    g.exhaustive(
+        "with_resets",
+        22 * 4 * 5 * 3,
+        &move |i| {
+            let shape = [4usize, 0, 3][(i % 3) as usize];
+            let r = i / 3;
+            let resets = 1 + (r % 5) as u8;
+            let r = r / 5;
+            let n = [1usize, 9, 20, 60][(r % 4) as usize];
+            let kind = ALL_KINDS[(r / 4) as usize];
+            let heavy = matches!(kind, Kind::Mad | Kind::Cci | Kind::Er) && n > 32;
+            let mut s = seed ^ (i + 13).wrapping_mul(0x2545F4914F6CDD1D);
+            Case { cfg: cfg_small(kind, n), shape, len: if heavy { rlen / 2 } else { rlen }, seed: splitmix(&mut s), scalar: i % 2 == 0, resets }
         },
         &check,
     );
